@@ -6,6 +6,24 @@ import PartituraModel.Proofs.C15Voices
 namespace C15
 open Model.Merge
 
+theorem insertBy_perm (le : Elem → Elem → Bool) (x : Elem) (l : List Elem) :
+    (insertBy le x l).Perm (x :: l) := by
+  induction l with
+  | nil => exact List.Perm.refl _
+  | cons y ys ih =>
+    simp only [insertBy]
+    split
+    · exact List.Perm.refl _
+    · exact ((ih.cons y).trans (List.Perm.swap x y ys))
+
+theorem isort_perm (le : Elem → Elem → Bool) (l : List Elem) : (isort le l).Perm l := by
+  induction l with
+  | nil => exact List.Perm.refl _
+  | cons x xs ih =>
+    have : isort le (x :: xs) = insertBy le x (isort le xs) := rfl
+    rw [this]
+    exact (insertBy_perm le x _).trans (ih.cons x)
+
 theorem keysOk_ctxOf (L : Nat) (first : Bool) (vo so np : Nat) (p : APart) {e : Elem} (he : e ∈ p.elems) :
     keysOk (ctxOf L first vo so np p) e = true := by
   simp only [keysOk, ctxOf, Bool.and_eq_true, Bool.or_eq_true, Bool.not_eq_true']
@@ -35,14 +53,14 @@ theorem mergeParts_two (m : Mode) (p q : APart) (rest : List APart) :
     mergeParts m (p :: q :: rest) =
       if (p :: q :: rest).all (fun p => 0 < p.divs) && voicesGiven (p :: q :: rest) then
         some (.merged (lcmList ((p :: q :: rest).map (·.divs)))
-          ((mergeFrom m (lcmList ((p :: q :: rest).map (·.divs))) true 0 0 0 (p :: q :: rest)).mergeSort iterLe))
+          (isort iterLe (mergeFrom m (lcmList ((p :: q :: rest).map (·.divs))) true 0 0 0 (p :: q :: rest))))
       else none := by
   simp only [mergeParts, keysFrom_true, Bool.or_true, Bool.and_true]
 
 theorem mergeParts_merged_iff {m : Mode} {ps : List APart} {L : Nat} {es : List Elem} :
     mergeParts m ps = some (.merged L es) ↔
       2 ≤ ps.length ∧ (∀ p ∈ ps, 0 < p.divs) ∧ voicesGiven ps = true ∧ L = lcmList (ps.map (·.divs))
-        ∧ es = (mergeFrom m L true 0 0 0 ps).mergeSort iterLe := by
+        ∧ es = isort iterLe (mergeFrom m L true 0 0 0 ps) := by
   match ps with
   | [] => simp [mergeParts]
   | [p] => simp [mergeParts]
@@ -66,6 +84,6 @@ theorem mergeParts_merged_iff {m : Mode} {ps : List APart} {L : Nat} {es : List 
 theorem merged_perm {m : Mode} {ps : List APart} {L : Nat} {es : List Elem}
     (h : mergeParts m ps = some (.merged L es)) : es.Perm (mergeFrom m L true 0 0 0 ps) := by
   obtain ⟨_, _, _, _, rfl⟩ := mergeParts_merged_iff.mp h
-  exact List.mergeSort_perm _ _
+  exact isort_perm _ _
 
 end C15
